@@ -13,6 +13,19 @@ CLAIMED = {
             "line is exercised with a synthesised row and near-miss mutations. Complete under the stated bound.",
             "Trusted: Python's re for inner /re/ fragments; the reference matcher mc/ref/rulelang.py; bound: alphabet of 6 tokens / 6 words.",
             "DESIGN.md §3 C07"),
+    "C01": ("explicit-state BFS to closure over device states: every (state, desired config) transition through the real _diff_and_patch and cmd_paths, executed on a reference device",
+            "For every rulebook of a grammar covering literals,*,~,*/re/, nesting, %global, %ordered, %rewrite, undo_redo/permanent/"
+            "ignore_changes and '!' rules, on 2-4 vendors, every state of the rulebook's complete config universe is an initial state "
+            "and every config a deploy event; the reachable set is closed, so chains of any length are covered. Each transition "
+            "checks the final device state against an independent expectation, emptiness of the second diff/patch.",
+            "Trusted: the reference device and rule-selection models (mc/ref/device.py, mc/ref/rb.py); universes bounded to <=36 (quick) / <=400 (thorough) configs per rulebook.",
+            "DESIGN.md §3 C01"),
+    "C03": ("bounded-exhaustive enumeration of all (old,new) pairs of each rulebook's config universe through the real make_diff/strip_unchanged/formatter.diff/gen_pre_as_diff against a path-wise reference",
+            "Every ordered pair of configs of every grammar rulebook is diffed by the real code; op exactness per path, both projections, "
+            "UNCHANGED soundness, MOVED minimality in %ordered groups, self-diff emptiness and read-back of both textual renderings "
+            "are compared with a reference computed from the configs and the rulebook structure.",
+            "Trusted: mc/ref/rb.py rule selection; the small readers of the signed formats in the check.",
+            "DESIGN.md §3 C03"),
     "C12": ("stateless model checking of the real annet.parallel under a controlled scheduler on virtual processes/queues: all interleavings with state de-duplication, plus preemption-bounded DFS",
             "The unmodified Parallel.irun/run, _check_children and _pool_worker run on virtual multiprocessing primitives; every "
             "scheduling decision (worker steps, feeder flushes, process exits, parent polls) is enumerated. Small configurations "
